@@ -19,6 +19,7 @@ import (
 	"os"
 	"strconv"
 	"strings"
+	"sync"
 	"time"
 
 	"gcverif/internal/hx"
@@ -38,6 +39,27 @@ const caseTimeout = 20 * time.Second
 
 // ---------------------------------------------------------------------------------------------- helpers
 
+// every temporary directory is registered so that main can remove what a blocked case left behind
+var (
+	tempMu   sync.Mutex
+	tempDirs = map[string]bool{}
+)
+
+func removeTemp(dir string) {
+	os.RemoveAll(dir)
+	tempMu.Lock()
+	delete(tempDirs, dir)
+	tempMu.Unlock()
+}
+
+func removeAllTemp() {
+	tempMu.Lock()
+	defer tempMu.Unlock()
+	for d := range tempDirs {
+		os.RemoveAll(d)
+	}
+}
+
 func newBase(kind string) (FS, func(), error) {
 	switch kind {
 	case "mem":
@@ -48,8 +70,11 @@ func newBase(kind string) (FS, func(), error) {
 		if err != nil {
 			return nil, nil, err
 		}
+		tempMu.Lock()
+		tempDirs[dir] = true
+		tempMu.Unlock()
 		fs, err := diskfs.NewFilespace(dir)
-		return fs, func() { os.RemoveAll(dir) }, err
+		return fs, func() { removeTemp(dir) }, err
 	}
 	return nil, nil, errors.New("unknown base " + kind)
 }
@@ -833,6 +858,7 @@ func gen(w *bufio.Writer, n int) {
 func main() {
 	w := bufio.NewWriterSize(os.Stdout, 1<<16)
 	defer w.Flush()
+	defer removeAllTemp()
 	if !sha3SelfTest() {
 		fmt.Fprintln(os.Stderr, "sha3 self-test failed")
 		os.Exit(3)
